@@ -1,0 +1,55 @@
+//go:build verif
+
+package kgo
+
+// This file exists only in builds with the `verif` tag. Nothing here changes
+// client behavior unless the harness calls it.
+
+// VerifC29SetPartitionSequence pretends that seq records have already been
+// produced (and acknowledged) to a partition by the current producer ID: it
+// sets the partition's recBuf.seq and recBuf.batch0Seq to seq and clears
+// needSeqReset (loading the first producer ID flags every known partition
+// "reset to 0 on first use"; that reset is what is being replaced).
+//
+// It must be called after the partition is known (metadata loaded) and
+// after the producer ID is loaded, and before anything is buffered for the
+// partition. It returns false when the partition is unknown or already
+// has buffered records. Producing 2^31 records is infeasible in a test, and a
+// broker accepts any first sequence from a producer it has no state for on a
+// partition, so this is the way to observe sequence wrap-around.
+func VerifC29SetPartitionSequence(cl *Client, topic string, partition, seq int32) bool {
+	tp, ok := cl.producer.topics.load()[topic]
+	if !ok {
+		return false
+	}
+	parts := tp.load().partitions
+	if partition < 0 || int(partition) >= len(parts) {
+		return false
+	}
+	recBuf := parts[partition].records
+	recBuf.mu.Lock()
+	defer recBuf.mu.Unlock()
+	if len(recBuf.batches) != 0 {
+		return false
+	}
+	recBuf.seq = seq
+	recBuf.batch0Seq = seq
+	recBuf.needSeqReset = false
+	return true
+}
+
+// VerifC29PartitionSequence reads a partition's (seq, batch0Seq, needSeqReset).
+func VerifC29PartitionSequence(cl *Client, topic string, partition int32) (seq, batch0Seq int32, needSeqReset, ok bool) {
+	tp, found := cl.producer.topics.load()[topic]
+	if !found {
+		return 0, 0, false, false
+	}
+	parts := tp.load().partitions
+	if partition < 0 || int(partition) >= len(parts) {
+		return 0, 0, false, false
+	}
+	recBuf := parts[partition].records
+	recBuf.mu.Lock()
+	defer recBuf.mu.Unlock()
+	return recBuf.seq, recBuf.batch0Seq, recBuf.needSeqReset, true
+}
